@@ -412,10 +412,9 @@ def r3_lifo(ck, rule="C04-R3"):
             for wl in pt.while_let_pop_loops(fn):
                 if wl["head"] == h:
                     # the rolled-back element is the one obtained from last(), and pop follows on the loop path
-                    lastb = wl["last_bbs"][0]
                     a = df.operand_expr(fn, s.term["args"][1]) if len(s.term["args"]) > 1 else None
                     from_last = a is not None and df.mentions_deep(fn, a, lambda x: df.is_call(x, "::last"))
-                    from_pop = a is not None and df.mentions_deep(fn, a, lambda x: df.is_call(x, "::pop"))
+                    from_pop = a is not None and df.mentions_deep(fn, a, lambda x: df.is_call(x, "::pop", "::pop_if"))
                     pop_after = any(pb in cfg.reachable_from_after(fn, s.bb) for pb in wl["pop_bbs"])
                     if from_last and pop_after:
                         ok = True
@@ -427,6 +426,30 @@ def r3_lifo(ck, rule="C04-R3"):
                         detail = "last/pop loop, but the rolled-back element is %s" % (df.show(a) if a else "?")
             ck.require(ok, rule, inst, "rollback loop does not undo in LIFO order: %s" % detail, s.where(), ok_detail=detail)
     ck.floor(rule, "rollback loops", n, 3)
+
+
+def _popped_something(fn, pb):
+    """Where control goes after the pop at pb when an element was really taken: the `Some` side when the result is matched at once
+    (`while let Some(x) = v.pop_if(..)`: on the None side nothing left the stack), every successor otherwise."""
+    t = fn.blocks[pb]["term"]
+    succ = [sx for sx in fn.succs(pb) if not fn.blocks[sx]["cleanup"]]
+    nb = t.get("target")
+    if nb is None or "p" in t["dest"]:
+        return succ
+    blk = fn.blocks[nb]
+    t2 = blk["term"]
+    if t2["k"] != "switch":
+        return succ
+    d = t2["discr"]
+    dl = d.get("pl", {}).get("l") if d.get("k") in ("copy", "move") else None
+    is_discr = any(s_["k"] == "assign" and s_["lhs"]["l"] == dl and "p" not in s_["lhs"] and s_["rv"]["k"] == "discr" and
+                   s_["rv"]["pl"]["l"] == t["dest"]["l"] and not s_["rv"]["pl"].get("p") for s_ in blk["stmts"])
+    if not is_discr:
+        return succ
+    some = [b for v, b in t2["targets"] if int(v) == 1]
+    if not some and all(int(v) == 0 for v, b in t2["targets"]):
+        some = [t2["otherwise"]]
+    return some or succ
 
 
 def r3b_pop_after_rollback(ck, rule="C04-R3"):
@@ -455,8 +478,8 @@ def r3b_pop_after_rollback(ck, rule="C04-R3"):
                     # pop first, then roll back what was popped: fine when no path from the pop to the next iteration or to a return
                     # avoids the rollback of that very element
                     rb_pop = {s.bb for s in cg.out[fid] if s.term is not None and s.callee in reach_abort and s.bb in wl["body"] and
-                              len(s.term["args"]) > 1 and df.mentions_deep(fn, df.operand_expr(fn, s.term["args"][1]), lambda x: df.is_call(x, "::pop"))}
-                    after = cfg.reachable(fn, [sx for sx in fn.succs(pb) if not fn.blocks[sx]["cleanup"]], blocked=rb_pop)
+                              len(s.term["args"]) > 1 and df.mentions_deep(fn, df.operand_expr(fn, s.term["args"][1]), lambda x: df.is_call(x, "::pop", "::pop_if"))}
+                    after = cfg.reachable(fn, _popped_something(fn, pb), blocked=rb_pop)
                     if rb_pop and wl["head"] not in after and not [b for b in cfg.exits(fn) if b in after]:
                         ck.ok(rule, "pop only after rollback in %s" % fn.id, "the popped element is rolled back on every path that goes on",
                               fn.where(fn.blocks[pb]["term"]))
